@@ -1,1 +1,238 @@
-/-! C11 - property theorems (declared with their full name `C11.<name>`; helper lemmas go to Lemmas/) -/
+import CohdlVerif.Lemmas.C11History
+
+/-!
+  C11 - property theorems (declared with their full name `C11.<name>`; helper lemmas are in Lemmas/C11Lemmas.lean).
+
+  `Cfg.orig`  = the pinned tree (no repair), `Cfg.fixed` = the tree with the six fixes/C11-*.patch applied.
+  A design is the event list its compilation goes through, crash point (`Ev.fail`) included, so a statement
+  "for every design" is also a statement for every crash point.
+-/
+open CohdlVerif.C11
+
+namespace CohdlVerif.C11
+
+/-- witnesses: a rejected design per leaked piece of state (crash point = last event) -/
+def crashInSM : Design :=
+  [.enter .conv [], .enter .arch [1], .exit, .enter .blk [], .exit, .exit,
+   .enter .irapply [], .enter .ircall [], .enter .sm [], .enter .loop [], .fail]
+def crashInTrace : Design := [.enter .conv [], .enter .arch [1], .exit, .enter .blk [], .fail]
+def crashInPrefix : Design := [.enter .conv [], .enter .arch [1], .exit, .enter .blk [], .enter .pfx [5], .fail]
+def crashInCtx : Design := [.enter .conv [], .enter .arch [1], .exit, .enter .blk [], .enter .ctx [7], .fail]
+def crashInArch : Design := [.enter .conv [], .enter .arch [1], .fail]
+/-- accepted designs used as the second element of the two-design histories -/
+def coroDesign : Design :=
+  [.enter .conv [], .enter .arch [2], .exit, .enter .blk [], .exit, .exit, .enter .sm [], .act (.emit 1), .exit]
+def prefixDesign : Design :=
+  [.enter .conv [], .enter .arch [2], .exit, .enter .blk [], .enter .pfx [6], .act (.name 9), .exit, .exit, .exit]
+def needsCtxDesign : Design :=
+  [.enter .conv [], .enter .arch [2], .exit, .enter .blk [], .act .useCtx, .exit, .exit]
+def libsDesign : Design := [.enter .conv [], .enter .arch [2], .exit, .exit, .act (.libs [3, 1, 2])]
+
+end CohdlVerif.C11
+
+/-- THE INVARIANT (repaired tree): whatever the design does and wherever it crashes, a compilation started in a
+    clean state leaves a clean state. -/
+theorem C11.compile_preserves_clean (perm : List Nat → List Nat) (d : Design) (g : G) (h : Clean g) :
+    Clean (compile Cfg.fixed perm d g).2 :=
+  clean_run perm d [] 0 g [] (inv_of_clean h)
+
+example : Clean G.init := ⟨fun _ _ => rfl, rfl, rfl⟩
+example : Clean (compile Cfg.fixed id crashInSM G.init).2 := C11.compile_preserves_clean _ _ _ ⟨fun _ _ => rfl, rfl, rfl⟩
+
+/-- clean states are closed under whole histories of accepted and rejected designs -/
+theorem C11.history_preserves_clean (perm : List Nat → List Nat) (ds : List Design) (g : G) (h : Clean g) :
+    Clean (ds.foldl (fun g d => (compile Cfg.fixed perm d g).2) g) := by
+  induction ds generalizing g with
+  | nil => exact h
+  | cons d ds ih => exact ih _ (C11.compile_preserves_clean perm d g h)
+
+/-! The invariant is FALSE on the pinned tree: one crash point per leaked piece of state. -/
+
+/-- `StatemachineContext._singleton` stays set when IR generation fails inside a coroutine ... -/
+theorem C11.compile_preserves_clean_fails_at_sm :
+    ¬ Clean (compile Cfg.orig id crashInSM G.init).2 := by
+  intro h; have := h.1 .sm rfl; revert this; decide
+
+/-- ... and every later coroutine design is rejected with "nested StatemachineContext" -/
+theorem C11.history_dependence_sm :
+    (compile Cfg.orig id coroDesign G.init).1 = .ok [[8, 1]] ∧
+    (compile Cfg.orig id coroDesign (compile Cfg.orig id crashInSM G.init).2).1 = .reject .nestedSM := by
+  decide
+
+/-- the dummy block stays on `_block_stack` when tracing fails -/
+theorem C11.compile_preserves_clean_fails_at_blk :
+    ¬ Clean (compile Cfg.orig id crashInTrace G.init).2 := by
+  intro h; have := h.1 .blk rfl; revert this; decide
+
+/-- ... `current_entity()` then is the dead block for ever, `_Prefix` no longer resets its counters and the SECOND
+    later compilation of a design with a traced prefix gets different names -/
+theorem C11.history_dependence_blk :
+    let g1 := (compile Cfg.orig id crashInTrace G.init).2
+    let g2 := (compile Cfg.orig id prefixDesign g1).2
+    (compile Cfg.orig id prefixDesign G.init).1 = .ok [[1, 6, 9]] ∧
+    (compile Cfg.orig id prefixDesign g2).1 = .ok [[1, 6, 1001, 9]] := by
+  decide
+
+/-- `_Prefix._prefix_scope` keeps the prefix of a traced `with std.prefix` whose body fails -/
+theorem C11.compile_preserves_clean_fails_at_pfx :
+    ¬ Clean (compile Cfg.orig id crashInPrefix G.init).2 := by
+  intro h; have := h.1 .pfx rfl; revert this; decide
+
+theorem C11.history_dependence_pfx :
+    (compile Cfg.orig id prefixDesign (compile Cfg.orig id crashInPrefix G.init).2).1 = .ok [[1, 5, 6, 9]] := by
+  decide
+
+/-- `std._context._current_context` keeps the context of a rejected design: a design that must be rejected
+    ("no clock known") is accepted afterwards with the dead design's clock -/
+theorem C11.compile_preserves_clean_fails_at_ctx :
+    ¬ Clean (compile Cfg.orig id crashInCtx G.init).2 := by
+  intro h; have := h.1 .ctx rfl; revert this; decide
+
+theorem C11.history_dependence_ctx :
+    (compile Cfg.orig id needsCtxDesign G.init).1 = .reject .noCtx ∧
+    (compile Cfg.orig id needsCtxDesign (compile Cfg.orig id crashInCtx G.init).2).1 = .ok [[2, 7]] := by
+  decide
+
+/-- `EntityInfo.instantiated` stays set when the architecture raises: the same design is ACCEPTED the second time
+    (the architecture is not run again, the partial instance is used) -/
+theorem C11.compile_preserves_clean_fails_at_inst :
+    ¬ Clean (compile Cfg.orig id crashInArch G.init).2 := by
+  intro h; have := h.2.1; revert this; decide
+
+theorem C11.history_dependence_inst :
+    (compile Cfg.orig id crashInArch G.init).1 = .reject .crash ∧
+    (compile Cfg.orig id (crashInArch.dropLast ++ [.exit, .exit]) (compile Cfg.orig id crashInArch G.init).2).1
+      = .ok [[3, 1]] := by
+  decide
+
+/-- with the repairs none of the five witnesses leaves anything behind (instances of the invariant theorem) -/
+theorem C11.witnesses_clean_when_fixed :
+    ∀ d ∈ [crashInSM, crashInTrace, crashInPrefix, crashInCtx, crashInArch],
+      Clean (compile Cfg.fixed id d G.init).2 :=
+  fun d _ => C11.compile_preserves_clean _ d _ ⟨fun _ _ => rfl, rfl, rfl⟩
+
+/-! ## caches -/
+
+/-- a sound cache answers every lookup with the value computed from the key alone, and stays sound -/
+theorem C11.cache_transparent (c : List (Nat × Nat)) (k : Nat) (h : CacheSound c) :
+    (cacheGet c k).1 = defOf k ∧ CacheSound (cacheGet c k).2 :=
+  cacheGet_sound k h
+
+example : CacheSound (cacheGet (cacheGet [] 3).2 4).2 :=
+  (cacheGet_sound 4 (cacheGet_sound 3 (fun _ h => by simp at h)).2).2
+
+/-! ## iteration order of Python sets -/
+
+/-- every action yields the same result under any two iteration orders of the audited sets, once the library
+    set is emitted sorted (fixes/C11-library-order.patch) -/
+theorem C11.act_independent_of_perm (cfg : Cfg) (hfix : cfg.fixLib = true) (p q : List Nat → List Nat)
+    (hp : ∀ xs, (p xs).Perm xs) (hq : ∀ xs, (q xs).Perm xs) (a : Act) (g : G) :
+    act cfg p a g = act cfg q a g := by
+  cases a <;> simp only [act]
+  case libs xs =>
+    simp only [hfix, if_true]
+    rw [isort_eq_of_perm ((hp xs).trans (hq xs).symm)]
+  case mem x xs =>
+    have : (p xs).contains x = (q xs).contains x := by
+      have := ((hp xs).trans (hq xs).symm).mem_iff (a := x)
+      simp only [List.contains_eq_mem]
+      exact decide_eq_decide.mpr this
+    rw [this]
+
+/-- the compilation result and the state left behind do not depend on the iteration order of the sets -/
+theorem C11.output_independent_of_perm (cfg : Cfg) (hfix : cfg.fixLib = true) (p q : List Nat → List Nat)
+    (hp : ∀ xs, (p xs).Perm xs) (hq : ∀ xs, (q xs).Perm xs) (d : Design) (g : G) :
+    compile cfg p d g = compile cfg q d g := by
+  unfold compile
+  generalize ([] : List Kind) = F
+  generalize (0 : Nat) = n
+  generalize ([] : List Tok) = out
+  induction d generalizing F n g out with
+  | nil => rfl
+  | cons ev evs ih =>
+    cases ev with
+    | fail => rfl
+    | exit => cases F <;> simp only [run] <;> exact ih _ _ _ _
+    | enter k a =>
+      simp only [run]
+      cases enter k a n g with
+      | error e => rfl
+      | ok r => exact ih _ _ _ _
+    | act a =>
+      simp only [run]
+      rw [C11.act_independent_of_perm cfg hfix p q hp hq a g]
+      cases act cfg q a g with
+      | error e => rfl
+      | ok r => exact ih _ _ _ _
+
+example : (∀ xs : List Nat, (List.reverse xs).Perm xs) := fun xs => List.reverse_perm xs
+
+/-- on the pinned tree the emitted library clauses follow the set iteration order (PYTHONHASHSEED) -/
+theorem C11.output_independent_of_perm_fails_at_libs :
+    (compile Cfg.orig id libsDesign G.init).1 ≠ (compile Cfg.orig List.reverse libsDesign G.init).1 := by
+  decide
+
+/-! ## independence of the history -/
+
+/-- THE PROPERTY on the model: started in a clean state whose caches are sound and whose prefix counters belong to
+    an earlier compilation (both hold after every compilation, `C11.owner_old_after_compile`, `C11.cache_transparent`),
+    the result of compiling a design - verdict, error class and every emitted token - is the one of a pristine
+    interpreter.  Holds for every configuration of repairs: what the repairs add is that the state stays clean
+    (`C11.compile_preserves_clean`).  The masked pieces (`returned_blocks`, `_current_frame`), the caches, the counter
+    and the stale prefix counters may differ arbitrarily. -/
+theorem C11.output_independent_of_history (cfg : Cfg) (perm : List Nat → List Nat) (d : Design) (g : G)
+    (h : Clean g) (ho : Old g.owner) (hf : CacheSound g.fnCache) (ht : CacheSound g.tyCache) :
+    (compile cfg perm d g).1 = (compile cfg perm d G.init).1 := by
+  obtain ⟨hs, hn⟩ := sim_init h ho hf ht
+  exact run_result_eq cfg perm d [] 0 g G.init [] hs hn
+
+/-- the hypothesis on the prefix owner holds after every compilation, whatever happened in it -/
+theorem C11.owner_old_after_compile (cfg : Cfg) (perm : List Nat → List Nat) (d : Design) (g : G) :
+    Old (compile cfg perm d g).2.owner :=
+  old_run cfg perm d [] 0 g []
+
+/-- non-vacuity: the state left by a rejected design on the repaired tree satisfies the hypotheses, although its
+    masked pieces are dirty and its prefix counters are not empty -/
+example : let g := (compile Cfg.fixed id crashInSM G.init).2
+    Clean g ∧ Old g.owner ∧ g.s .ircall ≠ [] :=
+  ⟨C11.compile_preserves_clean _ _ _ ⟨fun _ _ => rfl, rfl, rfl⟩, C11.owner_old_after_compile _ _ _ _, by decide⟩
+
+/-- two-step corollary on the repaired tree: a rejected design never changes the result of the next compilation
+    (caches untouched by the first design for simplicity of the statement) -/
+theorem C11.rejected_design_is_harmless (perm : List Nat → List Nat) (r d : Design)
+    (hf : CacheSound (compile Cfg.fixed perm r G.init).2.fnCache)
+    (ht : CacheSound (compile Cfg.fixed perm r G.init).2.tyCache) :
+    (compile Cfg.fixed perm d (compile Cfg.fixed perm r G.init).2).1 = (compile Cfg.fixed perm d G.init).1 :=
+  C11.output_independent_of_history _ _ _ _
+    (C11.compile_preserves_clean perm r G.init ⟨fun _ _ => rfl, rfl, rfl⟩)
+    (C11.owner_old_after_compile _ _ _ _) hf ht
+
+/-- caches stay sound through every compilation (accepted, rejected, any crash point) -/
+theorem C11.caches_sound_after_compile (cfg : Cfg) (perm : List Nat → List Nat) (d : Design) (g : G)
+    (h : CachesSound g) : CachesSound (compile cfg perm d g).2 :=
+  sound_run cfg perm d [] 0 g [] h
+
+/-- THE PROPERTY, closed form (repaired tree): after ANY history of accepted and rejected designs started in a
+    pristine interpreter, compiling `d` gives exactly the result of compiling `d` in a pristine interpreter. -/
+theorem C11.output_independent_of_any_history (perm : List Nat → List Nat) (hist : List Design) (d : Design) :
+    (compile Cfg.fixed perm d (hist.foldl (fun g r => (compile Cfg.fixed perm r g).2) G.init)).1
+      = (compile Cfg.fixed perm d G.init).1 := by
+  have key : ∀ (hist : List Design) (g : G), Clean g → Old g.owner → CachesSound g →
+      let g' := hist.foldl (fun g r => (compile Cfg.fixed perm r g).2) g
+      Clean g' ∧ Old g'.owner ∧ CachesSound g' := by
+    intro hist
+    induction hist with
+    | nil => intro g h1 h2 h3; exact ⟨h1, h2, h3⟩
+    | cons r rs ih =>
+      intro g h1 _ h3
+      exact ih _ (C11.compile_preserves_clean perm r g h1) (C11.owner_old_after_compile _ _ _ _)
+        (C11.caches_sound_after_compile _ _ _ _ h3)
+  obtain ⟨h1, h2, h3⟩ := key hist G.init ⟨fun _ _ => rfl, rfl, rfl⟩ (fun p hp => by simp [G.init] at hp)
+    ⟨fun e he => by simp [G.init] at he, fun e he => by simp [G.init] at he⟩
+  exact C11.output_independent_of_history _ _ _ _ h1 h2 h3.1 h3.2
+
+/-- non-vacuity / contrast: on the pinned tree the same statement fails for a two-element history -/
+theorem C11.output_independent_of_any_history_fails_on_pinned_tree :
+    (compile Cfg.orig id coroDesign ([crashInSM].foldl (fun g r => (compile Cfg.orig id r g).2) G.init)).1
+      ≠ (compile Cfg.orig id coroDesign G.init).1 := by
+  decide
